@@ -173,7 +173,7 @@ def stats_e2e(ctx):
             events.append({"ev": "announce", "h": h, "key": ["127.0.0.2", aport], "pid": pid, "event": event, "left": left})
 
         def snapshot():
-            time.sleep(3.2)     # > cleaning interval + statistics interval
+            time.sleep(3.8)     # > cleaning interval + statistics interval, with margin
             clients, torrents, peers = read_html()
             events.append({"ev": "html", "clients": clients, "torrents4": torrents, "peers4": peers})
 
